@@ -48,32 +48,50 @@ def _sha(*parts) -> str:
 # ----------------------------------------------------------------------------- digests
 
 
-def digest_df(df) -> str:
-    """sha256 over the bytes of every column, the dtypes, the column labels and the index."""
+def frame_digests(df):
+    """(digest of the whole frame, {column: digest}): sha256 over the bytes of every column, the dtypes,
+    the column labels and the index."""
     if df is None:
-        return "none"
+        return "none", {}
     import numpy as np
     import pandas as pd
 
-    h = hashlib.sha256()
     if isinstance(df, pd.Series):
         df = df.to_frame()
-    h.update(repr(list(df.columns)).encode())
-    h.update(repr([str(t) for t in df.dtypes]).encode())
+    h = hashlib.sha256()
+    cols = {}
     idx = df.index
-    h.update(repr((type(idx).__name__, str(idx.dtype), idx.names)).encode())
+    h.update(repr((type(idx).__name__, str(idx.dtype), tuple(idx.names), len(idx))).encode())
     try:
-        h.update(np.ascontiguousarray(idx.to_numpy()).tobytes() if idx.dtype != object else repr(idx.tolist()).encode())
+        if isinstance(idx, pd.RangeIndex):
+            h.update(repr((idx.start, idx.stop, idx.step)).encode())
+        elif idx.dtype == object:
+            h.update(repr(idx.tolist()).encode())
+        else:
+            h.update(np.ascontiguousarray(idx.to_numpy()).tobytes())
     except Exception:
         h.update(repr(idx.tolist()).encode())
-    for i in range(df.shape[1]):
-        col = df.iloc[:, i]
-        arr = col.to_numpy()
-        if arr.dtype == object or arr.dtype.kind in "OUS":
-            h.update(repr(col.tolist()).encode())
+    for i, name in enumerate(df.columns):
+        arr = df.iloc[:, i]._values if hasattr(df.iloc[:, i], "_values") else df.iloc[:, i].to_numpy()
+        hc = hashlib.sha256()
+        hc.update(repr((str(name), str(getattr(arr, "dtype", "?")))).encode())
+        if isinstance(arr, np.ndarray) and arr.dtype.kind not in "OUS":
+            hc.update(np.ascontiguousarray(arr).tobytes())
         else:
-            h.update(np.ascontiguousarray(arr).tobytes())
-    return h.hexdigest()[:12]
+            hc.update(repr(list(arr)).encode())
+        d = hc.hexdigest()[:12]
+        key = str(name) if str(name) not in cols else f"{name}#{i}"
+        cols[key] = d
+        h.update(d.encode())
+    return h.hexdigest()[:12], cols
+
+
+def digest_df(df) -> str:
+    return frame_digests(df)[0]
+
+
+def column_digests(df) -> dict:
+    return frame_digests(df)[1]
 
 
 def _s(e) -> str:
@@ -119,10 +137,14 @@ def _datainfo_proj(di):
     return repr(di.to_dict())
 
 
+_LAST_COLS: dict = {}
+
+
 def model_parts(m) -> dict:
     """Everything observable about a model, part by part (the digest is the hash of all parts)."""
     parts = {}
-    parts["dataset"] = digest_df(m._dataset)
+    parts["dataset"], cols = frame_digests(m._dataset)
+    _LAST_COLS[id(m)] = cols
     parts["datainfo"] = _sha(_datainfo_proj(m.datainfo))
     parts["parameters"] = _sha(_params_proj(m.parameters))
     parts["random_variables"] = _sha(_rvs_proj(m.random_variables))
@@ -278,7 +300,7 @@ def wf_bits(m, code_ok: bool | None = None) -> list:
 # ----------------------------------------------------------------------------- session recorder
 
 
-class CallTimeout(Exception):
+class CallTimeout(BaseException):
     pass
 
 
@@ -326,6 +348,8 @@ class Session:
         self.info: list[dict] = []  # per event: annotations for the case record (not sent to TLC)
         self.timeouts = 0
         self._dig: list[str] = []
+        self.colsig: dict = {}
+        self.coldiff: dict = {}
 
     # -- store
     def oid(self, obj):
@@ -334,22 +358,28 @@ class Session:
                 return i + 1
         return 0
 
-    def _post(self, full=False):
+    def _post(self, full=False, cheap=False):
         """Project the store objects again; returns (digests, {oid: changed part names})."""
         changed = {}
         post = []
         for i, o in enumerate(self.objs):
-            if i < len(self.parts) and not full and not _is_mutable_suspect(o):
-                post.append(self._dig[i])  # components are re-projected at the audit events only
+            if i < len(self.parts) and not full and (cheap or not _is_mutable_suspect(o)):
+                post.append(self._dig[i])  # components (and everything on == / hash events) are re-projected at the audit
                 continue
             p = parts_of(o)
             if i < len(self.parts):
                 diff = sorted(k for k in set(p) | set(self.parts[i]) if p.get(k) != self.parts[i].get(k))
                 if diff:
                     changed[i + 1] = diff
+                    if "dataset" in diff:
+                        old, new = self.colsig.get(i, {}), _LAST_COLS.get(id(o), {})
+                        self.coldiff[i + 1] = {"added": sorted(set(new) - set(old)), "removed": sorted(set(old) - set(new)),
+                                               "modified": sorted(c for c in set(old) & set(new) if old[c] != new[c])}
                 self.parts[i] = p
             else:
                 self.parts.append(p)
+            if "dataset" in p:
+                self.colsig[i] = _LAST_COLS.pop(id(o), {})
             dg = digest_of(p)
             if i < len(self._dig):
                 self._dig[i] = dg
@@ -359,10 +389,13 @@ class Session:
         return post, changed
 
     def _emit(self, ev: dict, full=False, **info):
-        post, changed = self._post(full)
+        post, changed = self._post(full, cheap=(ev["ev"] in ("obs", "load") and not full))
         ev["post"] = post
         self.events.append(ev)
         info["changed"] = changed
+        if changed and self.coldiff:
+            info["coldiff"] = {k: v for k, v in self.coldiff.items() if k in changed}
+            self.coldiff = {}
         self.info.append(info)
         return changed
 
@@ -389,8 +422,11 @@ class Session:
         if not arg_ids:
             raise core.MachineryError(f"{fname}: no store object among the arguments")
         out, res, exc = None, None, None
+        # CPU-time limit (robust against a loaded machine) plus a generous wall-clock limit against blocking calls
         old = signal.signal(signal.SIGALRM, _alarm)
-        signal.alarm(timeout)
+        oldv = signal.signal(signal.SIGVTALRM, _alarm)
+        signal.setitimer(signal.ITIMER_VIRTUAL, timeout)
+        signal.alarm(timeout * 20)
         try:
             with contextlib.redirect_stdout(io.StringIO()), contextlib.redirect_stderr(io.StringIO()):
                 res = fn(*args, **kwargs)
@@ -402,8 +438,10 @@ class Session:
         except Exception as e:  # any exception: the frame has to hold all the same
             out, exc = "raised", e
         finally:
+            signal.setitimer(signal.ITIMER_VIRTUAL, 0)
             signal.alarm(0)
             signal.signal(signal.SIGALRM, old)
+            signal.signal(signal.SIGVTALRM, oldv)
         if out == "timeout":
             # an interrupted call is not an observation of the API: re-project silently, judge nothing
             self.timeouts += 1
